@@ -103,7 +103,27 @@ def call_fp(km, p, grid, wd, record=True):
                                               grid["domain"], grid["res"], grid["mxy"], wd=wd)
     finally:
         km.spsp = old
+    # a caller that works on the arrays it was handed (receptor-relative coordinates: gx -= mx, gy -= my; masking the
+    # footprint) and asks again for the same raster must get the same answer: what a call returns belongs to the caller
+    keep = tuple(np.array(a, copy=True) for a in (gx, gy, gf))
+    try:
+        for a, op in ((gx, lambda a: a.__isub__(17.25)), (gy, lambda a: a.__imul__(0.5)), (gf, lambda a: a.fill(-1.0))):
+            if isinstance(a, np.ndarray) and a.flags.writeable:
+                op(a)
+        with warnings.catch_warnings():
+            warnings.simplefilter("ignore")
+            again = km.estimateFootprint(p["zm"], p["z0"], p["ws"], p["ustar"], p["L"], p["sv"],
+                                         grid["domain"], grid["res"], grid["mxy"], wd=wd)
+        REPEAT["n"] += 1
+        if not all(np.array_equal(np.asarray(a), b, equal_nan=True) for a, b in zip(again, keep)):
+            REPEAT["bad"].append({"kind": "cells", "p": p, "grid": grid, "wd": wd, "repeat_after_edit": True})
+    except Exception as e:  # noqa: BLE001
+        REPEAT["bad"].append({"kind": "cells", "p": p, "grid": grid, "wd": wd, "repeat_after_edit": True, "error": repr(e)})
+    gx, gy, gf = keep
     return gx, gy, gf, proxy.calls, [str(x.message) for x in w]
+
+
+REPEAT = {"n": 0, "bad": []}
 
 
 # ------------------------------------------------------------------------------------------------
@@ -646,6 +666,12 @@ def check(ctx):
     hist["dtype:calls"] = nd
     hist["dtype:mismatches"] = len(bad)
 
+    for h in REPEAT["bad"][:6]:
+        ctx.fail("correspondence", "C19:repeat-after-the-caller-edited-the-returned-arrays",
+                 "estimateFootprint called twice with the same arguments, the caller having shifted / rescaled / overwritten the arrays the first call returned: the second call returns other grids or another footprint (%s); p=%r grid=%r wd=%r"
+                 % (h.get("error", "arrays differ"), h["p"], h["grid"], h["wd"]), hint=h)
+    hist["repeat-after-edit:calls"] = REPEAT["n"]
+    hist["repeat-after-edit:mismatches"] = len(REPEAT["bad"])
     ctx.cov.update(
         evaluations=n_eval,
         distinct_nontrivial=len(distinct) + len(mcases) + len(gcases),
@@ -845,6 +871,12 @@ def oracle(ctx, hints):
             cfgs.append((p, grid, wd))
     for p, grid, wd in cfgs:
         try:
+            n0 = len(REPEAT["bad"])
+            call_fp(km, p, grid, wd)
+            if len(REPEAT["bad"]) > n0:
+                add("state:second-call-sees-the-callers-edits-of-the-first-result",
+                    "estimateFootprint twice with the same arguments; between the calls the caller shifts gx, rescales gy and overwrites the footprint it was handed: the second call returns other arrays; p=%r grid=%r wd=%r" % (p, grid, wd),
+                    {"kind": "cells", "p": p, "grid": grid, "wd": wd, "repeat_after_edit": True})
             res = probe_cells(km, p, grid, wd)
             if res and any(not isinstance(v, float) for v in p.values()):
                 # integer-typed parameters: if the same numbers as floats satisfy the property, the cause is the dtype
@@ -884,6 +916,11 @@ def replay(body):
         res = [(w, d) for w, d, rp in bad if rp["function"] == body["function"] and rp["dtype"] == body["dtype"]] or [(w, d) for w, d, rp in bad]
     elif kind == "cells":
         res = probe_cells(km, body["p"], body["grid"], body["wd"])
+        if body.get("repeat_after_edit"):
+            n0 = len(REPEAT["bad"])
+            call_fp(km, body["p"], body["grid"], body["wd"])
+            if len(REPEAT["bad"]) > n0:
+                res = list(res) + [("state:second-call-sees-the-callers-edits-of-the-first-result", "second identical call after the caller edited the returned arrays returns other arrays")]
     elif kind == "rot90":
         res = probe_rot90(km, body["p"], body["res"], body["half"], body["mxy"])
     elif kind == "mass":
